@@ -12,6 +12,7 @@
 mod gen;
 mod model;
 mod monitor;
+mod noise;
 mod props;
 mod util;
 
